@@ -20,9 +20,11 @@ type Violation struct {
 	Sched   []string          `json:"sched,omitempty"`
 	Detail  string            `json:"detail,omitempty"`
 	Count   int               `json:"count"`
+	SymOnly bool              `json:"sym_only,omitempty"`
 }
 
 type Witness struct {
+	SymOnly bool            `json:"sym_only,omitempty"`
 	Label string            `json:"label"`
 	Model map[string]string `json:"model"`
 	Trace []int             `json:"trace"`
@@ -224,7 +226,8 @@ func (e *Exec) reportViolation(kind, label, detail string, model map[string]stri
 		return
 	}
 	r.Violations[label] = &Violation{Harness: r.Name, Label: label, Kind: kind, Model: model,
-		Trace: append([]int(nil), e.trace...), Sched: append([]string(nil), e.schedLog...), Detail: detail, Count: 1}
+		Trace: append([]int(nil), e.trace...), Sched: append([]string(nil), e.schedLog...), Detail: detail, Count: 1,
+		SymOnly: e.symOnly || strings.HasPrefix(label, "sym-only:")}
 }
 
 func runHarness(L *Loaded, fn *ssa.Function, cfg *RunCfg) *HarnessRun {
@@ -351,7 +354,7 @@ func (e *Exec) recordWitnesses() {
 	var need []string
 	r.mu.Lock()
 	for _, l := range e.labels {
-		if _, ok := r.Witnesses[l]; !ok {
+		if w, ok := r.Witnesses[l]; !ok || (w.SymOnly && !e.symOnly) {
 			need = append(need, l)
 		}
 	}
@@ -366,8 +369,8 @@ func (e *Exec) recordWitnesses() {
 	}
 	r.mu.Lock()
 	for _, l := range need {
-		if _, ok := r.Witnesses[l]; !ok {
-			r.Witnesses[l] = &Witness{Label: l, Model: m, Trace: append([]int(nil), e.trace...)}
+		if w, ok := r.Witnesses[l]; !ok || (w.SymOnly && !e.symOnly) {
+			r.Witnesses[l] = &Witness{Label: l, Model: m, Trace: append([]int(nil), e.trace...), SymOnly: e.symOnly}
 		}
 	}
 	if wantSample && len(r.Samples) < 3 {
